@@ -501,6 +501,11 @@ def _judge_layer(ref: Ref, lname: str, layer: Any, proto_args: List[Tuple[str, A
                     ("value-wrong", kind), **show, problem=f"got {got!r}")
             continue
         for sub in spec["subs"]:
+            if "nested" in sub:
+                # a complex sub-parameter has no string value: what get_subvalue() makes of it
+                # is left open; what counts is that the simple ones behind it keep their places
+                col.count("complex-sub-parameter-in-spec")
+                continue
             col.ev()
             exp, kind = ref.content(subset, cid, e["value"], sub["name"])
             if kind != "present":
